@@ -12,14 +12,14 @@ CHECKS = {
  "C03": ("runtime monitor of wire tokens: LE primitive output compared with token-wise byte-reversed BE output for 107 instantiated primitive pairs (built-in and defined element/prefix types); every multi-byte numeric token of every message checked against the module's single byte order",
          "Exploration: all big/little-endian primitive pairs instantiated for every prefix and element type are driven with generated values, and every numeric token (scalar, count, element, text length, computed length, computed checksum) of every message type is located by the pinned schema and checked for the module's byte order. Holds on the executions observed.",
          "Token positions come from the pinned schema; the per-module byte order is data of the oracle (no per-field override exists in the schema format).", "§3 C03"),
- "C04": ("runtime invariant monitor on frame encodes: length token vs. appended bytes vs. object field vs. reference body length, under 7 buffer histories and stale caller values",
-         "Exploration: every self-measuring frame type × every registered body type × 4 body kinds × 7 buffer histories × 4 stale caller values (thorough: repeated with fresh random content and >8 MiB frames). Holds on the executions observed.",
+ "C04": ("runtime invariant monitor on frame encodes: length token vs. appended bytes vs. object field vs. reference body length, under 9 buffer histories and stale caller values",
+         "Exploration: every self-measuring frame type × every registered body type × 4 body kinds × 9 buffer histories × 4 stale caller values (thorough: repeated with fresh random content and >8 MiB frames). Holds on the executions observed.",
          "Frame header positions come from the pinned schema.", "§3 C04"),
- "C05": ("runtime invariant monitor on frame encodes: trailer vs. object field vs. own byte-sum / bitwise CRC-32 over exactly the appended frame bytes, under 7 buffer histories",
+ "C05": ("runtime invariant monitor on frame encodes: trailer vs. object field vs. own byte-sum / bitwise CRC-32 over exactly the appended frame bytes, under 9 buffer histories",
          "Exploration: every checksummed frame type × every registered body type × body kinds × buffer histories (prior content, partly consumed, reallocation) × stale values; the checksum span is pinned to the bytes this Encode appended. Holds on the executions observed.",
          "Own checksum implementations are self-tested on published check values.", "§3 C05"),
- "C06": ("runtime differential monitor: encode under 7 buffer histories vs. encode of a deep clone into a fresh buffer; prefix-preservation, re-encode and sequence-concatenation oracles",
-         "Exploration: all 170 types × generated values × 7 buffer histories, re-encodes of the same object, and mixed-type sequences with partial drains. Holds on the executions observed.",
+ "C06": ("runtime differential monitor: encode under 9 buffer histories vs. encode of a deep clone into a fresh buffer; prefix-preservation, re-encode and sequence-concatenation oracles",
+         "Exploration: all 170 types × generated values × 9 buffer histories, re-encodes of the same object, and mixed-type sequences with partial drains. Holds on the executions observed.",
          "Trusts bytes.Buffer and the harness deep-clone.", "§3 C06"),
  "C07": ("runtime monitor of buffer state after Decode: unread remainder compared byte-for-byte with the known tail; stream oracle over mixed frame sequences",
          "Exploration: all 170 types × generated canonical values × 4 kinds of trailing bytes, plus mixed-type streams (concatenated and through one shared send buffer) decoded by n successive calls. Holds on the executions observed.",
@@ -48,8 +48,8 @@ CHECKS = {
  "C15": ("runtime differential monitor: the same image decoded into a fresh receiver and into five kinds of dirty receivers, structural-equality oracle",
          "Exploration: all 170 types × valid, wire-level and mutated images × 5 receiver histories (populated object, previously decoded other image, after a failed truncated decode, aliased sub-objects, near miss of the expected result). Holds on the executions observed.",
          "Receiver histories are generated, not enumerated.", "§3 C15"),
- "C16": ("runtime aliasing monitor: snapshot comparison after scribbling over / reusing the source bytes and after mutating the message; repeated under the race-detector build (checkptr)",
-         "Exploration: all 170 types × values with non-empty lists; decoded message vs deep snapshot after complementing the backing array, resetting/reusing the buffer, decoding another message; written bytes vs snapshot after in-place mutation of the message; zero checkptr/race aborts in the instrumented run.",
+ "C16": ("runtime aliasing monitor: snapshot comparison after scribbling over / reusing the source bytes and after mutating the message; pooled-object random walk judged against the stateless reference interpreter; repeated under the race-detector build (checkptr)",
+         "Exploration: all 170 types × values with non-empty lists; decoded message vs deep snapshot after complementing the backing array, resetting/reusing the buffer, decoding another message; written bytes vs snapshot after in-place mutation of the message; a pool of long-lived objects and buffers reused for many random operations (no operation may change another object; every result must equal the stateless reference); small frames decoded from a 96 MiB source; zero checkptr/race aborts in the instrumented run.",
          "checkptr flags only invalid unsafe conversions; valid zero-copy aliases are caught by the snapshot oracle instead.", "§3 C16"),
  "C17": ("runtime monitor with panic trap and child-process isolation over zero, constructor and arbitrary values of every type",
          "Exploration: every type × zero value, constructor result, arbitrary field contents, every registered key with nil body, unregistered keys, each nested pointer part nil (thorough: 70 000-element lists), into seven kinds of destination buffer; checksummed frames also with their service unregistered. A panic or a dead child refutes.",
@@ -57,7 +57,7 @@ CHECKS = {
  "C18": ("runtime monitor at the prefix limits: every prefixed writer and every prefixed field of every message at max and max+1 (u32 text via an untouched 4 GiB mapping in the thorough tier)",
          "Exploration at enumerated boundary points: all prefixed primitives × u8/u16 and defined types over them × {max-1,max,max+1,2max+1}; every prefixed field of every message type at max (round trip) and max+1 (must error), also inside frames; thorough adds 2^32-byte texts behind u32 prefixes. 2^32-element lists are out of reach in this sandbox and not claimed.",
          "Field enumeration comes from the pinned schema.", "§3 C18"),
- "C19": ("linearizability checking (porcupine v1.3.0) of recorded concurrent histories against a sequential map model, plus the Go race detector on the same workload",
+ "C19": ("linearizability checking (porcupine v1.3.0) of recorded concurrent histories of Registry/Get/Remove/Clear and of real frame encodes whose trailer reveals the registration they looked up, against a sequential map model; plus the Go race detector on the same workload",
          "Exploration over schedules: thousands of short, genuinely overlapping histories of Registry/Get/Remove/Clear with unique-id services are recorded at the client boundary and checked; the same workload runs under -race; five fresh processes start with Clear/Remove/Registry/Get on the built-in names as their very first registry calls. Holds on the histories and accesses observed.",
          "Monitors use no shared state inside the measured region; checker timeouts are inconclusive.", "§3 C19"),
  "C20": ("Go race detector plus result-equality oracle over 64 goroutines encoding/decoding private objects of all types; fresh-process first-use trials",
